@@ -1,2 +1,5 @@
 pub mod codec;
 pub mod deque;
+pub mod iovec;
+pub mod readn;
+pub mod stream;
